@@ -166,13 +166,17 @@ def _mc(ctx):
     return r, wd, c["W"]
 
 
-def run(ctx, replay_ids=None):
+def run(ctx, replay_case=None):
     # 0-2. concurrently: BigInt self-test; model check of the fast path; Gen of the test space (parallel shards)
+    # (a replay re-runs the stored case itself: driver + judge; Trace_Const re-derives src/reflit/vt/dt from expr)
     model_findings = []
+    replay_ids = None if replay_case is None else {replay_case["id"]}
+    shards = [[replay_case]] if replay_case is not None else None
     with one_cpu_jvm(), ThreadPoolExecutor(PAR + 2) as ex:
         fb = ex.submit(_mcbig, ctx) if replay_ids is None else None
         fm = ex.submit(_mc, ctx) if replay_ids is None else None
-        shards = list(ex.map(lambda k: _gen_shard(ctx, k, PAR), range(PAR)))
+        if shards is None:
+            shards = list(ex.map(lambda k: _gen_shard(ctx, k, PAR), range(PAR)))
         if fb:
             ctx.cov["bigint_selftest"] = fb.result()
         if fm:
@@ -191,8 +195,6 @@ def run(ctx, replay_ids=None):
             ctx.cov["actions_never_taken"] = __import__("re").findall(r'"(\w+)"', m.group(1))
     cases = sorted((c for s in shards for c in s), key=lambda c: c["id"])
     ctx.cov["cases_exported"] = len(cases)
-    if replay_ids is not None:
-        cases = [c for c in cases if c["id"] in replay_ids]
     cfile = ctx.work / "cases.ndjson"
     rig.write_ndjson(cfile, cases)
     # 3. replay into the real scriggo
@@ -211,7 +213,7 @@ def run(ctx, replay_ids=None):
                    distinct_nontrivial=len({json.dumps(o["src"]) for o in allobs if nontrivial(o)}),
                    rule="every depth-1 tree over the boundary literal set x unary/binary operators, shifts, conversions to the 17 basic types (exported by TLC, exhaustive over the stated grids) + seeded depth-2 trees in thorough; non-trivial = the build was rejected with a BuildError or the observing program ran",
                    exhaustive=True,
-                   reference_verdicts={k: sum(1 for c in cases if c["rst"] == k) for k in ("ok", "rej", "any")},
+                   reference_verdicts={k: sum(1 for c in cases if c.get("rst") == k) for k in ("ok", "rej", "any")},
                    samples=[show(o) for o in rig.pick_samples(allobs, 4, ctx.seed)])
     # 4. judge (TLC, parallel shards); concurrently the sensitivity self-test: corrupted observations must be
     #    rejected by the same Trace spec
@@ -302,4 +304,4 @@ def selftest(allobs, seed):
 
 def replay(ctx, path):
     c = json.loads((Path(path) / "case.json").read_text())
-    return run(ctx, replay_ids={c["id"]})
+    return run(ctx, replay_case=c)
